@@ -531,6 +531,7 @@ if __name__ == '__main__':
     bdir = os.path.join(VERIF, 'build', 'dev', a.unit)
     shutil.rmtree(bdir, ignore_errors=True)
     try:
+        TIER = a.tier
         info = prepare_unit(u, bdir)
     except Inconclusive as e:
         print('INCONCLUSIVE', e)
